@@ -1,17 +1,80 @@
 from vlib.props import prop
 
+_min_obs_quick = {
+    # (1) update formula / (3) bounds
+    "updates_checked": 50000, "bound_checks": 50000, "voxels_compared": 8000000,
+    "voxels_clamped_at_zero": 80000, "voxels_clamped_at_upper_bound": 150000,
+    "voxels_with_thresholded_denominator": 300000,
+    # the relaxation schedule is really discriminated (updates whose band separates n from n+1)
+    "updates_discriminating_iteration_numbering": 40000,
+    # (2) precomputed denominator
+    "denominator_voxels_compared": 800000, "denominator_bins_with_capped_quotient": 80000,
+    # (4) restart
+    "restarts_checked": 18000, "restart_iterates_compared": 100000, "file_roundtrip_restarts": 4000,
+    "restarts_with_denominator_read_from_file": 6000, "saved_iterates_read_back": 14000,
+    # configuration classes
+    "prior_none": 3000, "prior_quadratic": 1000, "prior_quadratic_kappa": 1000, "prior_quadratic_recompute_curvature": 800,
+    "subsets_1": 700, "subsets_2_to_4": 2500, "subsets_5_or_more": 2500,
+    "cases_with_upper_bound": 4000, "cases_randomised_subset_order": 500, "cases_any_number_of_subsets": 1700,
+    "cases_with_additive_term": 3000, "cases_with_normalisation": 3000,
+}
+
 prop("C08",
      harness="c08_ossps",
      runs={
-         "quick": [dict(flavour="asan", cases=40), dict(flavour="rel", cases=400)],
-         "thorough": [dict(flavour="asan", cases=400), dict(flavour="rel", cases=8000)],
+         "quick": [dict(flavour="asan", cases=800), dict(flavour="rel", cases=9000)],
+         "thorough": [dict(flavour="asan", cases=1500), dict(flavour="rel", cases=30000)],
      },
-     min_nontrivial={"quick": 100, "thorough": 2000},
-     min_obs={"quick": {"updates_checked": 1000},
-              "thorough": {"updates_checked": 20000}},
-     rule="provisional",
-     technique="provisional",
-     level_text="provisional",
-     level_note="provisional",
-     assumptions=[],
+     min_nontrivial={"quick": 6000, "thorough": 20000},
+     min_obs={"quick": _min_obs_quick,
+              # thorough cases are larger (up to 28 detectors, 36 sub-iterations, every interruption point)
+              "thorough": {k: 3 * v for k, v in _min_obs_quick.items()}},
+     rule=("case = one generated reconstruction problem: cylindrical scanner with 8..24/28 detectors, 1..3 rings, 3..11 tangential "
+           "positions, 5x5..9x9 x (2 rings - 1) image, ray-tracing matrix with a random subset of the symmetry switches and "
+           "cylindrical or square FOV (explicit matrix G extracted row by row into float64), Poisson data from the documented model "
+           "(G truth + a)/n with optional additive term and normalisation factors; OSSPS with 1..#views subsets (70%: a number the "
+           "balance check accepts, 30%: any), 1..3 full iterations plus a partial one (<= 20/36 sub-iterations), random start "
+           "subset, ordered or (10%) randomised subset order, subset or total/N sensitivities, relaxation parameter 0.3..2, "
+           "relaxation gamma 0 / 0.1 / 0.05..1, upper bound absent (35%) or 0.8..4 x mean truth, no prior (50%) or QuadraticPrior "
+           "(3-D / only_2D, penalisation 0.01..10, with/without kappa image; 30% of these through a subclass that keeps "
+           "parabolic_surrogate_curvature_depends_on_argument() == true, i.e. the recompute-penalty-term-in-denominator path), "
+           "enforce initial positivity on (20%) / off, start image with/without exact zeros, iterates saved as Interfile (30%).  "
+           "Per case the uninterrupted run is observed at every sub-iteration (input of every sub-gradient call + final target) "
+           "and restarted from a fresh reconstruction + objective function object at every (quick: <= 5 random) interruption "
+           "point, from the in-memory iterate or the saved file, with the denominator recomputed or read from the file written "
+           "by the first run.  non-trivial = matrix with >= 30 non-zeros, data with counts, >= 2 updates compared with the "
+           "reference; distinct = distinct case descriptor"),
+     technique=("runtime monitoring: the real OSSPSReconstruction is run on generated problems whose system matrix is known explicitly; "
+                "every iterate is compared with a float64 reference of the documented update (computed float32 bands), the saved "
+                "denominator with its closed form, bounds are checked on every iterate, and restarted runs are compared bit-for-bit "
+                "with the uninterrupted run; under ASan/UBSan/asserts and at -O2"),
+     level_text=("for thousands of generated problems every OSSPS sub-iteration is compared voxel by voxel with "
+                 "clamp(lambda + zeta_n (N grad_S L(lambda) - grad R(lambda)) / D, 0, U) evaluated in float64 from the explicit matrix, "
+                 "D = max(D_pre + 2 x the prior's surrogate curvature, 1e-5 x smallest positive element), "
+                 "D_pre = sum_b G_bv (G1)_b / (y_b n_b^2) with divide_and_truncate's documented rules, within a band computed from "
+                 "operation counts and sums of absolute terms; zeta_n = alpha/(1+gamma n) must fit ALL sub-iterations of a run with "
+                 "one numbering of the full iterations (0- or 1-based; the counters show that > 80% of the updates separate n from "
+                 "n+1); the subset used must follow the documented schedule; the denominator file written at set_up must equal D_pre "
+                 "and be non-negative; every iterate must be finite and inside [0, upper bound] (hundreds of thousands of voxels "
+                 "actually clamped at either bound, and thresholded denominators, are observed); saved Interfile iterates must equal "
+                 "the in-memory iterates bit-for-bit; a fresh object restarted at k+1 from the iterate after k must reproduce every "
+                 "later iterate bit-for-bit (no prior and quadratic prior, kappa, recomputed curvature).  Detection validated on "
+                 "planted changes: factor num_subsets dropped, relaxation from the sub-iteration number, relaxation counted from the "
+                 "start sub-iteration, denominator threshold removed, upper bound ignored, factor 2 of the prior curvature dropped"),
+     level_note=("trusted: the float64 reference and bands in harness/common/recon_ref.h (sps_step, precomputed_denominator, "
+                 "compute_ratio) and the comparison code in harness/c08_ossps.cxx; the prior's own gradient and surrogate curvature are "
+                 "taken from a separate QuadraticPrior instance (C09 checks those).  Not covered: priors other than QuadraticPrior, "
+                 "inter-iteration / inter-update filters, 'write update image', precomputed denominator := 1, parametric images, "
+                 "projectors other than the ray-tracing matrix, TOF data; voxels whose reference lies within the band of a documented "
+                 "truncation switch are excluded (counted: voxels_skipped_near_truncation_switch)"),
+     assumptions=["the numbering of full iterations in zeta_n is not fixed by the statement: n = 0 or n = 1 for the first full iteration "
+                  "are both accepted, provided the same numbering fits every sub-iteration of the run",
+                  "the first sub-iteration (subiteration_num 1) may set voxels that no bin sees to 0 "
+                  "(fill_nonidentifiable_target_parameters); the reference update starts from the image the sub-gradient was computed on",
+                  "enforce_initial_positivity is documented to lift non-positive voxels of the start image at set_up: with it on, a "
+                  "restart whose saved iterate contains zeros is not required to reproduce the uninterrupted run (counted: "
+                  "restarts_positivity_on_start_image_lifted)",
+                  "restart equality is required for the ordered subset schedule only (a randomised order draws new random numbers)",
+                  "numbers of subsets the OSMAPOSL balance check would reject are exercised too (30%): the class documentation says it "
+                  "'probably assumes balanced subsets' for convergence, the update formula of the statement does not depend on it"],
      )
